@@ -4,6 +4,7 @@ package stringclassifier
 
 import (
 	"fmt"
+	"github.com/google/licenseclassifier/stringclassifier/searchset"
 	"io"
 	"log"
 	"strings"
@@ -417,7 +418,7 @@ func c13AddValue(c *vrep.Ctx) {
 	if !instrumented() {
 		panic("c13 needs the v1 instrumentation profile")
 	}
-	syms := []string{"a", " ", "(", ")", "[", "*", "+", "?", "\\", ".", "|", "{", "^", "$", "é", "\xff", "b"}
+	syms := []string{"a", " ", "(", ")", "[", "*", "+", "?", "\\", ".", "|", "{", "^", "$", "é", "\xff", "b", "\ufffd"}
 	maxLen := c.Pick(3, 4)
 	c.R.Rule = fmt.Sprintf("ALL strings of 1..%d symbols over %q registered with AddValue (no normalisers, and FlattenWhitespace): never panics; NearestMatch(value) returns it with Confidence 1.0; MultipleMatch(\"x \"+value+\" y\") reports it with Confidence 1.0 and the exact Offset/Extent when the value contains a non-blank; a second literal-different string that the value would match as a regular expression must not be reported as an exact occurrence; non-trivial = distinct strings", maxLen, syms)
 	c.Bound("max_symbols", maxLen)
@@ -465,6 +466,25 @@ func c13AddValue(c *vrep.Ctx) {
 			if m := checkMatches(ms, normU, 0.8); m != "" {
 				msg = m
 				break
+			}
+			// the same text as it reads after a lossy conversion: every invalid byte written out as
+			// U+FFFD and the other way round (byte lengths differ): whatever is reported lies inside it
+			if swapped := strings.NewReplacer("\xff", "\ufffd", "\ufffd", "\xff").Replace(v); swapped != v {
+				for _, u2 := range []string{"x " + swapped + " y", swapped, "x" + swapped} {
+					var ms2 Matches
+					p, d = underSched(func() { ms2 = cl.MultipleMatch(u2) })
+					if p != "" || d != "" {
+						msg = fmt.Sprintf("MultipleMatch(%q): panic=%q deadlock=%q", u2, p, d)
+						break
+					}
+					if m := checkMatches(ms2, cl.normalize(u2), 0.8); m != "" {
+						msg = fmt.Sprintf("MultipleMatch(%q): %s", u2, m)
+						break
+					}
+				}
+				if msg != "" {
+					break
+				}
 			}
 			// exact occurrence (token aligned only when the value starts and ends with a token character)
 			aligned := !strings.HasPrefix(norm, " ") && !strings.HasSuffix(norm, " ")
@@ -572,14 +592,32 @@ func c13History(c *vrep.Ctx) {
 		}
 		return out
 	}
-	nops := 2 * len(unknowns)
+	// operations 2*len(unknowns).. : registering a further value (AddValue / AddPrecomputedValue) in the
+	// middle of the history; the last unknown contains it
+	extraVal := "pack my box with five dozen liquor jugs"
+	unknowns = append(unknowns, "well "+extraVal+" indeed")
+	nq := 2 * len(unknowns)
+	nops := nq + 2
 	fresh := map[string]string{}
-	for ti, t := range ts {
-		for op := 0; op < nops; op++ {
-			fresh[fmt.Sprint(ti, op)] = run(mk(t), op)
+	addExtra := func(cl *Classifier, op int) {
+		if op == nq {
+			cl.AddValue("extra", extraVal)
+		} else {
+			cl.AddPrecomputedValue("extra", extraVal, searchset.New(cl.normalize(extraVal), searchset.DefaultGranularity))
 		}
 	}
-	c.R.Rule = fmt.Sprintf("ALL sequences of 1..%d calls from {NearestMatch, MultipleMatch} x %d unknown texts (exact value, near values of similar and of greater length, a short value with context, unrelated text, two values in one text) on ONE classifier with three values (two of them similar) x thresholds %v: every call returns exactly what it returns on a fresh classifier, what the previous call returned does not change during the next one, and every Offset/Extent lies inside its own normalised unknown; non-trivial = distinct sequences", maxOps, len(unknowns), ts)
+	// reference results: a fresh classifier, without / with the extra value (registered either way)
+	for ti, t := range ts {
+		for op := 0; op < nq; op++ {
+			fresh[fmt.Sprint(ti, op, 0)] = run(mk(t), op)
+			for _, how := range []int{nq, nq + 1} {
+				cl := mk(t)
+				addExtra(cl, how)
+				fresh[fmt.Sprint(ti, op, how)] = run(cl, op)
+			}
+		}
+	}
+	c.R.Rule = fmt.Sprintf("ALL sequences of 1..%d calls from {NearestMatch, MultipleMatch} x %d unknown texts and {AddValue, AddPrecomputedValue} of one further value (exact value, near values of similar and of greater length, a short value with context, unrelated text, two values in one text) on ONE classifier with three values (two of them similar) x thresholds %v: every call returns exactly what it returns on a fresh classifier, what the previous call returned does not change during the next one, and every Offset/Extent lies inside its own normalised unknown; non-trivial = distinct sequences", maxOps, len(unknowns), ts)
 	c.Bound("max_calls", maxOps)
 	body := func(r *vx.Run) {
 		ti := r.Choose(len(ts), "threshold")
@@ -593,7 +631,15 @@ func c13History(c *vrep.Ctx) {
 		}
 		cl := mk(ts[ti])
 		msg := ""
+		added := 0
 		for i, op := range ops {
+			if op >= nq {
+				if added == 0 {
+					addExtra(cl, op)
+					added = op
+				}
+				continue
+			}
 			before := renderHeld()
 			keepNM, keepMM := heldNM, heldMM
 			got := run(cl, op)
@@ -610,7 +656,7 @@ func c13History(c *vrep.Ctx) {
 				msg = fmt.Sprintf("call %d: %s", i, got)
 				break
 			}
-			if want := fresh[fmt.Sprint(ti, op)]; got != want {
+			if want := fresh[fmt.Sprint(ti, op, added)]; got != want {
 				msg = fmt.Sprintf("call %d returns %s but on a fresh classifier %s", i, got, want)
 				break
 			}
